@@ -384,8 +384,15 @@ func (t *Task) runCustomExecute() {
 
 // executeCommand executes the shell command cmd via bash
 func (t *Task) executeCommand(cmd string) {
-	// cd into the task's tempdir, execute the command, and cd back
-	out, err := exec.Command("bash", "-c", "cd "+t.TempDir()+" && "+cmd+" && cd ..").CombinedOutput()
+	// Execute the command with the task's tempdir as its working directory. The
+	// directory is set for the shell process itself, rather than with a "cd" in
+	// front of the command: of a command that starts a background job, such as
+	// "tool1 ... & tool2 ...; wait", only the first part would run after the
+	// "cd", and the rest would run in the workflow's working directory and
+	// write its outputs straight to their final paths.
+	bashCmd := exec.Command("bash", "-c", cmd)
+	bashCmd.Dir = t.TempDir()
+	out, err := bashCmd.CombinedOutput()
 	if err != nil {
 		t.Failf("Command failed!\nCommand:\n%s\n\nOutput:\n%s\nOriginal error:%s", cmd, string(out), err)
 	}
